@@ -306,14 +306,20 @@ def run(ctx):
         if isinstance(n, ast.Assign) and n.value is packs[0] and isinstance(n.targets[0], ast.Name):
             hdr_var = n.targets[0].id
     # ---------------------------------------------------------------- R4 sendall, order, single writer
-    writes = [c for c in calls_in(send_msg.node) if last_attr(c) in ('sendall', 'send') and (receiver(c) or '') in send_msg.params]
+    # every way of writing to a socket; only sendall loops until everything is written - send / sendmsg / sendto / sendfile / os.write
+    # return after a partial write (a full buffer plus a signal handler, a socket in timeout mode)
+    WRITES = ('sendall', 'send', 'sendmsg', 'sendto', 'sendfile', 'write', 'send_bytes')
+    writes = [c for c in calls_in(send_msg.node) if last_attr(c) in WRITES and (receiver(c) or '') in send_msg.params]
     ctx.require(writes, 'send_msg: no socket write found')
     for w in writes:
         ctx.check('R4', 'send_msg writes with sendall', last_attr(w) == 'sendall', 'remote.send_msg', 'write:' + last_attr(w),
-                  'socket.send may write only a prefix of the message and its return value is ignored', where=loc(send_msg, w))
+                  f'socket.{last_attr(w)} may write only a prefix of the message and its return value is ignored: the header announces N bytes, fewer follow, and the next frame is appended', where=loc(send_msg, w))
     sent = [norm(a) for w in writes for a in w.args[:1]]
     order_ok = False
-    if len(writes) == 1 and isinstance(writes[0].args[0], ast.BinOp) and isinstance(writes[0].args[0].op, ast.Add):
+    if len(writes) == 1 and writes[0].args and isinstance(writes[0].args[0], (ast.Tuple, ast.List)) and len(writes[0].args[0].elts) == 2:
+        l, r = writes[0].args[0].elts
+        order_ok = (is_name(l, hdr_var) or norm(l) == norm(packs[0])) and is_name(r, body_var)
+    elif len(writes) == 1 and isinstance(writes[0].args[0], ast.BinOp) and isinstance(writes[0].args[0].op, ast.Add):
         l, r = writes[0].args[0].left, writes[0].args[0].right
         order_ok = (is_name(l, hdr_var) or l is packs[0] or norm(l) == norm(packs[0])) and is_name(r, body_var)
     elif len(writes) == 2:
@@ -328,7 +334,7 @@ def run(ctx):
             continue
         for c in calls_in(f.node):
             r = receiver(c) or ''
-            if last_attr(c) in ('send', 'sendall', 'recv', 'recv_into', 'sendto') and any(k in r.lower() for k in SOCKETISH) \
+            if last_attr(c) in ('send', 'sendall', 'recv', 'recv_into', 'sendto', 'sendmsg', 'recvmsg', 'recvfrom', 'sendfile') and any(k in r.lower() for k in SOCKETISH) \
                     and 'comms' not in r and 'pipe' not in r.lower():
                 raw.append((f, c))
     ctx.ob('R4', 'no raw socket send/recv outside send_msg/recv_msg and their helpers', not raw)
